@@ -52,7 +52,7 @@ Proof.
   - apply andb_false_iff; left; apply Z.eqb_neq; apply H1; simpl; tauto.
 Qed.
 
-Definition default_match (st : nx_state) : Prop := x_match st = [t_dot; t_dot].
+Definition default_match (st : nx_state) : Prop := x_match st = [t_dot; t_dot] \/ x_match st = [t_dot].
 
 Lemma read_chars_plain : forall st a nchar first t acc, default_match st -> symtext a t ->
   len acc + len t <= nchar ->
@@ -62,9 +62,9 @@ Proof.
   - rewrite List.app_nil_r. reflexivity.
   - destruct (H c (or_introl eq_refl)) as [P [i E]].
     assert (T : text_mem [c] (x_match st) = false).
-    { rewrite M. unfold t_dot, text_mem, text_eqb. simpl.
-      assert (c <> 46) by (apply (plain_not c 46 P); simpl; tauto).
-      apply Z.eqb_neq in H0. rewrite H0. reflexivity. }
+    { assert (c <> 46) by (apply (plain_not c 46 P); simpl; tauto).
+      apply Z.eqb_neq in H0.
+      destruct M as [M|M]; rewrite M; unfold t_dot, text_mem, text_eqb; simpl; rewrite H0; reflexivity. }
     rewrite T. rewrite E. cbn [bind].
     assert (K : (len acc =? nchar) = false).
     { apply Z.eqb_neq. unfold len in *. simpl in L. lia. }
@@ -178,45 +178,52 @@ Lemma matrix_loop_skip_eol : forall fuel st a nchar rows first toks, x_cap st = 
   matrix_loop lower fuel st a nchar rows first (EOL :: toks) = matrix_loop lower fuel st a nchar rows first toks.
 Proof. intros. destruct fuel; [reflexivity|]. cbn [matrix_loop]. rewrite H. reflexivity. Qed.
 
-Definition nrow_ok (a : alphabet) (nchar : Z) (r : text * list Z) : Prop :=
-  label_token_ok (fst r) = true /\ forallb (cell_ok a) (snd r) = true /\ len (snd r) = nchar.
+(* a row written with alphabet a and read with alphabet b *)
+Definition reread (a b : alphabet) (r : text * list Z) : text * list Z :=
+  (fst r, st_of b (symbols_as_string a (snd r))).
 
-Lemma matrix_loop_rows : forall a nchar (simple : bool) todo done st fuel first rest,
+Definition nrow_ok2 (a b : alphabet) (nchar : Z) (r : text * list Z) : Prop :=
+  label_token_ok (fst r) = true /\ symtext b (symbols_as_string a (snd r))
+  /\ len (symbols_as_string a (snd r)) = nchar.
+
+Lemma map_fst_reread : forall a b (l : matrix), map fst (map (reread a b) l) = map fst l.
+Proof. intros. rewrite map_map. apply map_ext. intros [x y]. reflexivity. Qed.
+
+Lemma matrix_loop_rows2 : forall a b nchar (simple : bool) todo done st fuel first rest,
   default_match st -> x_interleave st = false -> x_cap st = false ->
   1 <= nchar ->
   (length todo < fuel)%nat ->
   x_ns st = map fst done ++ (if simple then [] else map fst todo) ->
   (simple = true -> exists n, x_ntax st = Some n /\ len done + len todo <= n) ->
-  (forall r, In r todo -> nrow_ok a nchar r) ->
+  (forall r, In r todo -> nrow_ok2 a b nchar r) ->
   NoDup (map (keyf (x_cs st)) (map fst (done ++ todo))) ->
-  matrix_loop lower fuel st a nchar (numbered done) first
+  matrix_loop lower fuel st b nchar (numbered done) first
               (concat (map (row_tokens a) todo) ++ t_semi :: rest)
-  = Ok (set_ns st (map fst (done ++ todo)), a, numbered (done ++ todo), rest).
+  = Ok (set_ns st (map fst (done ++ todo)), b, numbered (done ++ map (reread a b) todo), rest).
 Proof.
-  intros a nchar simple todo. induction todo as [|[l s] todo IH];
+  intros a b nchar simple todo. induction todo as [|[l s] todo IH];
     intros done st fuel first rest M I Cp N F Hns Hnt Hok Hnd.
   - destruct fuel as [|f]; [simpl in F; lia|].
     cbn [map concat app matrix_loop]. rewrite Cp. cbn [next_tok negb andb].
     change (is_eol t_semi) with false. cbv iota. rewrite text_eqb_refl.
     rewrite List.app_nil_r.
     assert (E : map fst done = x_ns st) by (rewrite Hns; destruct simple; simpl; rewrite ?List.app_nil_r; reflexivity).
-    rewrite E. rewrite set_ns_id. reflexivity.
+    rewrite E. rewrite set_ns_id. cbn [map]. rewrite ?List.app_nil_r. reflexivity.
   - destruct fuel as [|f]; [simpl in F; lia|].
-    destruct (Hok (l, s) (or_introl eq_refl)) as [Hl [Hc Hs]]. cbn [fst snd] in *.
+    destruct (Hok (l, s) (or_introl eq_refl)) as [Hl [T Hs]]. cbn [fst snd] in *.
     unfold label_token_ok in Hl. apply andb_true_iff in Hl. destruct Hl as [Hl1 Hl2].
     apply negb_true_iff in Hl1. apply negb_true_iff in Hl2.
-    destruct (symbols_as_string_ok a s Hc) as [T [ST LT]].
-    assert (Sne : s <> []) by (intro X; subst s; unfold len in Hs; simpl in Hs; lia).
-    assert (Tne : symbols_as_string a s <> []) by (intro X; rewrite X in LT; destruct s; [contradiction | discriminate]).
-    cbn [map concat]. unfold row_tokens at 1. cbn [fst snd].
-    rewrite (seq_tokens_plain a _ T Tne).
+    set (tk := symbols_as_string a s) in *.
+    assert (Tne : tk <> []) by (intro X; rewrite X in Hs; unfold len in Hs; simpl in Hs; lia).
+    cbn [map concat]. unfold row_tokens at 1. cbn [fst snd]. fold tk.
+    rewrite (seq_tokens_plain b _ T Tne).
     cbn [app]. cbn [matrix_loop]. rewrite Cp. cbn [next_tok negb andb]. rewrite Hl1. rewrite Hl2.
     (* the taxon *)
     assert (Hnew : ~ In (keyf (x_cs st) l) (map (keyf (x_cs st)) (map fst done))).
     { rewrite !map_app in Hnd. simpl in Hnd. apply NoDup_remove_2 in Hnd.
       intro X. apply Hnd. apply in_or_app. left. exact X. }
     assert (GT : exists st1, get_taxon lower st l = Ok (st1, length done)
-                 /\ x_ns st1 = map fst (done ++ [(l, s)]) ++ (if simple then [] else map fst todo)
+                 /\ x_ns st1 = map fst (done ++ [(l, st_of b tk)]) ++ (if simple then [] else map fst todo)
                  /\ x_match st1 = x_match st /\ x_interleave st1 = x_interleave st /\ x_cap st1 = x_cap st
                  /\ x_cs st1 = x_cs st /\ x_ntax st1 = x_ntax st
                  /\ forall v, set_ns st1 v = set_ns st v).
@@ -240,14 +247,21 @@ Proof.
     assert (RG : row_get (length done) (numbered done) = None) by (unfold numbered; apply row_get_numbered_none; lia).
     rewrite (row_get_last _ _ _ RG). change (len (@nil Z)) with 0.
     rewrite I1, I. cbv iota.
-    rewrite (read_states_row st1 a nchar _ (symbols_as_string a s) _).
-    + cbn [bind]. rewrite ST. rewrite I1, I. cbv iota. cbn [negb andb].
-      replace (0 + len s <? nchar) with false by (symmetry; apply Z.ltb_ge; lia).
+    rewrite (read_states_row st1 b nchar _ tk _).
+    + cbn [bind]. rewrite I1, I. cbv iota. cbn [negb andb].
+      assert (Lst : len (st_of b tk) = nchar) by (unfold st_of, len in *; rewrite map_length; exact Hs).
+      rewrite Lst.
+      replace (0 + nchar <? nchar) with false by (symmetry; apply Z.ltb_ge; lia).
       rewrite (row_extend_last _ _ _ _ RG). cbn [app].
       rewrite matrix_loop_skip_eol by (rewrite C1; exact Cp).
-      rewrite andb_false_r. pose proof (numbered_snoc done (l, s)) as NS. cbn [snd] in NS. rewrite <- NS.
-      rewrite (IH (done ++ [(l, s)]) st1 f).
-      * rewrite Set1. rewrite <- !app_assoc. reflexivity.
+      pose proof (numbered_snoc done (l, st_of b tk)) as NS. cbn [snd] in NS. rewrite <- NS.
+      rewrite (IH (done ++ [(l, st_of b tk)]) st1 f).
+      * rewrite Set1. rewrite andb_false_r.
+        replace ((done ++ [(l, st_of b tk)]) ++ todo) with (done ++ (l, st_of b tk) :: todo)
+          by (rewrite <- app_assoc; reflexivity).
+        replace ((done ++ [(l, st_of b tk)]) ++ map (reread a b) todo)
+          with (done ++ reread a b (l, s) :: map (reread a b) todo) by (rewrite <- app_assoc; reflexivity).
+        rewrite !map_app. reflexivity.
       * unfold default_match. rewrite M1. exact M.
       * rewrite I1. exact I.
       * rewrite C1. exact Cp.
@@ -257,12 +271,42 @@ Proof.
       * intro Sm. destruct (Hnt Sm) as [n [En Ln]]. exists n. split; [rewrite Nt1; exact En|].
         rewrite len_app. unfold len in *. simpl in *. lia.
       * intros r Hr. apply Hok. right. exact Hr.
-      * rewrite Cs1. rewrite <- app_assoc. exact Hnd.
+      * rewrite Cs1. rewrite <- app_assoc. rewrite !map_app in *. cbn [map fst] in *. exact Hnd.
     + unfold default_match. rewrite M1. exact M.
     + rewrite I1. exact I.
     + split; assumption.
-    + unfold len in *. rewrite LT. exact Hs.
+    + exact Hs.
     + exact N.
+Qed.
+
+Definition nrow_ok (a : alphabet) (nchar : Z) (r : text * list Z) : Prop :=
+  label_token_ok (fst r) = true /\ forallb (cell_ok a) (snd r) = true /\ len (snd r) = nchar.
+
+Lemma reread_same : forall a nchar (l : matrix), (forall r, In r l -> nrow_ok a nchar r) -> map (reread a a) l = l.
+Proof.
+  intros a nchar l H. induction l as [|[x s] l IH]; [reflexivity|]. simpl. f_equal.
+  - unfold reread. cbn [fst snd]. destruct (H (x, s) (or_introl eq_refl)) as [_ [Hc _]].
+    destruct (symbols_as_string_ok a s Hc) as [_ [ST _]]. cbn [snd] in *. rewrite ST. reflexivity.
+  - apply IH. intros r Hr. apply H. right. exact Hr.
+Qed.
+
+Lemma matrix_loop_rows : forall a nchar (simple : bool) todo done st fuel first rest,
+  default_match st -> x_interleave st = false -> x_cap st = false ->
+  1 <= nchar ->
+  (length todo < fuel)%nat ->
+  x_ns st = map fst done ++ (if simple then [] else map fst todo) ->
+  (simple = true -> exists n, x_ntax st = Some n /\ len done + len todo <= n) ->
+  (forall r, In r todo -> nrow_ok a nchar r) ->
+  NoDup (map (keyf (x_cs st)) (map fst (done ++ todo))) ->
+  matrix_loop lower fuel st a nchar (numbered done) first
+              (concat (map (row_tokens a) todo) ++ t_semi :: rest)
+  = Ok (set_ns st (map fst (done ++ todo)), a, numbered (done ++ todo), rest).
+Proof.
+  intros a nchar simple todo done st fuel first rest M I Cp N F Hns Hnt Hok Hnd.
+  rewrite (matrix_loop_rows2 a a nchar simple todo done st fuel first rest); try assumption.
+  - rewrite (reread_same a nchar todo Hok). reflexivity.
+  - intros r Hr. destruct (Hok r Hr) as [A [B C0]]. destruct (symbols_as_string_ok a (snd r) B) as [T [_ LT]].
+    split; [exact A|]. split; [exact T|]. unfold len in *. rewrite LT. exact C0.
 Qed.
 
 End Reader.
@@ -472,7 +516,7 @@ Proof.
     rewrite ML; clear ML.
     + cbn [bind]. norm_st.
       rewrite block_loop_eq. cbn. rewrite NL. reflexivity.
-    + reflexivity.
+    + left; reflexivity.
     + reflexivity.
     + reflexivity.
     + exact Hn.
@@ -501,7 +545,7 @@ Proof.
     rewrite ML; clear ML.
     + cbn [bind]. norm_st.
       rewrite block_loop_eq. cbn. rewrite NL. reflexivity.
-    + reflexivity.
+    + left; reflexivity.
     + reflexivity.
     + reflexivity.
     + exact Hn.
